@@ -18,7 +18,7 @@ import (
 
 // Op is one scripted step of the publisher.
 type Op struct {
-	Kind  string // pub2 | dup2 | rel | pub1 | reconnect | cutpub2
+	Kind  string // pub2 | dup2 | rel | pub1 | reconnect | cutpub2 | faultpub2 | faultrel (redis scenarios only)
 	ID    uint16 `json:",omitempty"`
 	Clean bool   `json:",omitempty"`
 }
@@ -28,6 +28,7 @@ type Scenario struct {
 	V          byte // 4 or 5
 	Persistent bool // v3: clean session 0; v5: session expiry 3600
 	Redis      bool
+	Faults     bool // redis only: some store writes of the publisher's unack hash are refused by redis
 	Ops        []Op
 }
 
@@ -107,23 +108,72 @@ func Generate(rng *rand.Rand, maxOps int) Scenario {
 	return sc
 }
 
+// GenerateFaults draws a history for the redis back end in which redis refuses single writes of the publisher's
+// unack hash: a refused HSET (PUBLISH not acknowledged, connection given up, retransmission after a resume) and a
+// refused HDEL (PUBREL not answered, retransmitted after a resume). Exactly-once must survive both.
+func GenerateFaults(rng *rand.Rand, maxOps int) Scenario {
+	sc := Scenario{V: []byte{4, 5}[rng.Intn(2)], Persistent: true, Redis: true, Faults: true}
+	n := 3 + rng.Intn(maxOps)
+	U := map[uint16]bool{}
+	for i := 0; i < n; i++ {
+		id := uint16(1 + rng.Intn(3))
+		switch x := rng.Intn(100); {
+		case x < 25:
+			if !U[id] {
+				sc.Ops = append(sc.Ops, Op{Kind: "faultpub2", ID: id})
+				U[id] = true
+			} else {
+				sc.Ops = append(sc.Ops, Op{Kind: "faultrel", ID: id})
+				delete(U, id)
+			}
+		case x < 45:
+			if !U[id] {
+				sc.Ops = append(sc.Ops, Op{Kind: "pub2", ID: id})
+				U[id] = true
+			} else {
+				sc.Ops = append(sc.Ops, Op{Kind: "faultrel", ID: id})
+				delete(U, id)
+			}
+		case x < 70:
+			sc.Ops = append(sc.Ops, Op{Kind: "rel", ID: id})
+			delete(U, id)
+		case x < 85:
+			if !U[id] {
+				sc.Ops = append(sc.Ops, Op{Kind: "pub1", ID: id})
+			}
+		default:
+			sc.Ops = append(sc.Ops, Op{Kind: "reconnect"})
+		}
+	}
+	return sc
+}
+
 type finding struct {
 	Sig, What string
 }
 
 const step = 20 * time.Second
 
-// BrokerFactory lets the redis variant supply its own broker.
+// RedisCfg lets the redis variant supply its own broker configuration.
 var RedisCfg func(c *config.Config) (cleanup func(), err error)
+
+// RedisCfgFault is RedisCfg plus arm(cmd, key): redis refuses the next such command with an error reply.
+var RedisCfgFault func(c *config.Config) (cleanup func(), arm func(cmd, key string), err error)
 
 // RunScenario executes one scenario.
 func RunScenario(sc *Scenario, idx int) (fs []finding, obs map[string]int, err error) {
 	obs = map[string]int{}
 	add := func(sig, what string) { fs = append(fs, finding{sig, what}) }
 	var cleanup func()
+	var arm func(cmd, key string)
 	b, err := broker.Start(broker.Options{Cfg: func(c *config.Config) {
 		c.MQTT.MessageExpiry = 0
-		if sc.Redis && RedisCfg != nil {
+		if sc.Redis && sc.Faults && RedisCfgFault != nil {
+			cl, a, e := RedisCfgFault(c)
+			if e == nil {
+				cleanup, arm = cl, a
+			}
+		} else if sc.Redis && RedisCfg != nil {
 			cl, e := RedisCfg(c)
 			if e == nil {
 				cleanup = cl
@@ -333,6 +383,58 @@ func RunScenario(sc *Scenario, idx int) (fs []finding, obs map[string]int, err e
 			U[o.ID] = true
 			outstanding[o.ID] = pl
 			obs["cut_between_publish_and_ack"]++
+		case "faultpub2", "faultrel":
+			if arm == nil {
+				return fs, obs, fmt.Errorf("fault scenario without a fault-capable redis")
+			}
+			if !flush() {
+				return fs, obs, nil
+			}
+			var first, again *mqttx.Packet
+			var ackT byte
+			if o.Kind == "faultpub2" {
+				seq++
+				pl := fmt.Sprintf("m/%d", seq)
+				first = &mqttx.Packet{Type: mqttx.PUBLISH, Topic: "t", QoS: 2, PacketID: o.ID, Payload: []byte(pl)}
+				again = &mqttx.Packet{Type: mqttx.PUBLISH, Topic: "t", QoS: 2, Dup: true, PacketID: o.ID, Payload: []byte(pl)}
+				ackT = mqttx.PUBREC
+				arm("HSET", "unack:publisher")
+				expected[pl] = 1
+				U[o.ID] = true
+				outstanding[o.ID] = pl
+			} else {
+				first = &mqttx.Packet{Type: mqttx.PUBREL, PacketID: o.ID}
+				again = &mqttx.Packet{Type: mqttx.PUBREL, PacketID: o.ID}
+				ackT = mqttx.PUBCOMP
+				arm("HDEL", "unack:publisher")
+				delete(U, o.ID)
+				delete(outstanding, o.ID)
+			}
+			_ = c.Send(first)
+			// the store write is refused: a broker may give the connection up (gmqtt does) or answer anyway;
+			// the client waits for whichever comes first and then does what MQTT tells it to do: resume and retransmit
+			if a, err := c.WaitType(ackT, o.ID, step); err == nil && a != nil {
+				obs["fault_answered_anyway"]++
+				break
+			} else if err == wire.ErrTimeout {
+				return fs, obs, fmt.Errorf("neither an acknowledgement nor the end of the connection within %v of a refused store write", step)
+			}
+			obs["fault_"+o.Kind+"_connection_given_up"]++
+			c.Close()
+			var cerr error
+			var ack *mqttx.Packet
+			c, ack, cerr = connect(false)
+			if cerr != nil {
+				return fs, obs, cerr
+			}
+			if !ack.SessionPresent {
+				add("session_present:got=false:want=true", "session not resumed after a refused store write")
+				return fs, obs, nil
+			}
+			if err := c.Send(again); err != nil {
+				return fs, obs, err
+			}
+			wants = append(wants, want{ackT, o.ID})
 		case "reconnect":
 			if !flush() {
 				return fs, obs, nil
@@ -430,6 +532,12 @@ func Run(r *monitor.Run) {
 		scs[i] = Generate(rng, r.Pick(25, 40))
 		scs[i].Redis = RedisCfg != nil && i%5 == 4
 	}
+	if RedisCfgFault != nil {
+		frng := r.Rand("faults")
+		for i := 0; i < r.Pick(60, 1500); i++ {
+			scs = append(scs, GenerateFaults(frng, r.Pick(12, 25)))
+		}
+	}
 	// exhaustive short histories over one id (thorough): all sequences of {pub2,dup2,rel,reconnect(false),reconnect(true)} up to length 6, v4 persistent
 	if !r.Quick() {
 		alpha := []Op{{Kind: "pub2", ID: 1}, {Kind: "dup2", ID: 1}, {Kind: "rel", ID: 1}, {Kind: "reconnect"}, {Kind: "reconnect", Clean: true}}
@@ -490,7 +598,7 @@ func Run(r *monitor.Run) {
 		for k, v := range obs {
 			r.Count(k, int64(v))
 		}
-		if obs["retransmissions"]+obs["cut_between_publish_and_ack"] > 0 {
+		if obs["retransmissions"]+obs["cut_between_publish_and_ack"]+obs["fault_faultpub2_connection_given_up"]+obs["fault_faultrel_connection_given_up"] > 0 {
 			r.Nontrivial(monitor.J(sc))
 		}
 		if sc.Redis {
